@@ -118,6 +118,7 @@ class Run:
                 nb = s.branch()
                 self.live.append(Live(nb, lv.cons, label=f"s{len(self.live)}"))
                 self.live[-1].added_asts = list(lv.added_asts)
+                self.live[-1].tainted = lv.tainted  # a copy of a state the reference does not know is not known either
                 outcome = ("ok", None)
             elif op == "split":
                 parts = s.split()
@@ -131,6 +132,7 @@ class Run:
                 for o in others:
                     cons += o.cons
                 self.live.append(Live(nb, cons, label=f"s{len(self.live)}"))
+                self.live[-1].tainted = lv.tainted or any(o.tainted for o in others)
                 outcome = ("ok", None)
             elif op == "merge":
                 others = [self.live[j] for j in st["others"] if j < len(self.live) and j != st["s"]]
@@ -148,6 +150,7 @@ class Run:
                     opts = [["band", c, *g.cons] if g.cons else c for c, g in zip(conds_d, group)]
                     cons = [["bor", *opts] if len(opts) > 1 else opts[0]]
                 self.live.append(Live(nb, cons, label=f"s{len(self.live)}"))
+                self.live[-1].tainted = any(g.tainted for g in group) or (anc is not None and anc.tainted)
                 outcome = ("ok", None)
             else:
                 raise ValueError(op)
